@@ -16,13 +16,12 @@ from ..program import all_exprs, is_assign_op, rel
 # settings being set once before the threads start")
 LOG_SETTERS = ('zck_set_log_level', 'zck_set_log_fd', 'zck_set_log_callback')
 
-MT_UNSAFE = ('strtok', 'rand', 'srand', 'random', 'srandom', 'drand48', 'lrand48', 'localtime', 'gmtime',
+MT_UNSAFE = ('umask', 'strtok', 'rand', 'srand', 'random', 'srandom', 'drand48', 'lrand48', 'localtime', 'gmtime',
              'ctime', 'asctime', 'setenv', 'putenv', 'unsetenv', 'readdir', 'getpwnam', 'getpwuid',
              'getgrnam', 'getgrgid', 'tmpnam', 'ttyname', 'setlocale', 'strsignal', 'ecvt', 'fcvt',
              'gethostbyname', 'getlogin', 'crypt', 'chdir', 'fchdir', 'dirname', 'l64a', 'inet_ntoa')
 # process-global but allowed, with reason
-MT_ALLOWED = {'umask': 'get_tmp_fd narrows the umask around mkstemp; it only affects the mode of a temp file '
-                       'that is unlinked at once, never a result or a file the contexts produce'}
+MT_ALLOWED = {}
 
 # primitives whose pointer arguments are read only (position -> read-only)
 READ_ONLY_ARGS = {
